@@ -257,8 +257,28 @@ def build_prop(spec, parent=None):
     if values and spec["dtype"] in ("date", "time", "datetime") and sum(map(ord, spec["name"] or "")) % 3 == 1:
         # the other way of handing over temporal values: the documented text form (what a file holds)
         values = [temporal_text(v) for v in values]
-    return odml.Property(name=spec["name"], values=values,
-                         dtype=dtype, oid=spec.get("id"), parent=parent, **kw)
+    # the equivalent ways of saying the same thing (by name hash, so that a spec always builds the same way):
+    # 0 everything in the constructor; 1 attached with append(); 2 text attributes assigned after construction;
+    # 3 the cardinality through set_values_cardinality(), attached with append()
+    form = sum(map(ord, spec["name"] or "")) % 4 if BUILD_FORMS else 0
+    later = {}
+    if form == 2:
+        for a in ("unit", "reference", "definition", "value_origin", "dependency", "dependency_value"):
+            if a in kw:
+                later[a] = kw.pop(a)
+    card = kw.pop("val_cardinality") if form == 3 and isinstance(kw.get("val_cardinality"), tuple) else None
+    p = odml.Property(name=spec["name"], values=values, dtype=dtype, oid=spec.get("id"),
+                      parent=parent if form in (0, 2) else None, **kw)
+    for a, v in later.items():
+        setattr(p, a, v)
+    if card is not None:
+        p.set_values_cardinality(card[0], card[1])
+    if form in (1, 3) and parent is not None:
+        parent.append(p)
+    return p
+
+
+BUILD_FORMS = True
 
 
 def temporal_text(v):
@@ -280,7 +300,26 @@ def build_sec(spec, parent=None):
               "prop_cardinality"):
         if spec.get(a) is not None:
             kw[a] = spec[a]
-    s = odml.Section(name=spec["name"], type=spec["type"], oid=spec.get("id"), parent=parent, **kw)
+    form = sum(map(ord, spec["name"] or "")) % 4 if BUILD_FORMS else 0
+    later, cards = {}, {}
+    if form == 2:
+        for a in ("definition", "reference", "repository"):
+            if a in kw:
+                later[a] = kw.pop(a)
+    if form == 3:
+        for a in ("sec_cardinality", "prop_cardinality"):
+            if isinstance(kw.get(a), tuple):
+                cards[a] = kw.pop(a)
+    s = odml.Section(name=spec["name"], type=spec["type"], oid=spec.get("id"),
+                     parent=parent if form in (0, 2) else None, **kw)
+    for a, v in later.items():
+        setattr(s, a, v)
+    if "sec_cardinality" in cards:
+        s.set_sections_cardinality(*cards["sec_cardinality"])
+    if "prop_cardinality" in cards:
+        s.set_properties_cardinality(*cards["prop_cardinality"])
+    if form in (1, 3) and parent is not None:
+        parent.append(s)
     for p in spec.get("properties", []):
         build_prop(p, s)
     for c in spec.get("sections", []):
